@@ -11,6 +11,7 @@ import (
 	"sync/atomic"
 
 	"github.com/gocql/gocql"
+	"github.com/gocql/gocql/internal/murmur"
 	"github.com/gocql/gocql/verifsim/kernel"
 )
 
@@ -22,6 +23,14 @@ import (
 // needed: the token-aware policy gets its keyspace metadata from a stub, as in the
 // package's own unit tests. An optional second phase races Pick iterations against
 // mutations under the kernel's scheduler (safety only).
+//
+// History independence (token-aware policies): at tape-chosen points of the history and
+// always at its end a FRESH policy of the same kind and options is fed the current host
+// set through the calls Session.init makes, and both policies are picked with routing
+// keys on both sides of every token range boundary: the replicas-first prefix and the
+// remaining hosts must be the same sets (see historyCheck). Parallel rounds (token-aware
+// policies): with GOMAXPROCS > 1 routed picks run truly concurrently with a mutating
+// goroutine behind a spin barrier (see parallelRound); safety only.
 
 func init() {
 	register(&Scenario{
@@ -37,7 +46,7 @@ func init() {
 			"Session (the history calls the policy the way session.go/events.go do: setState then HostUp/HostDown, AddHost(s), RemoveHost, KeyspaceChanged)",
 			"keyspace metadata source (tokenAwareHostPolicy.getKeyspaceMetadata / getKeyspaceName, set through the verif shim)",
 		},
-		Rule: "one run = one tape-chosen case: policy kind (round-robin | dc-aware | rack-aware | token-aware over one of these x ShuffleReplicas x NonLocalReplicasFallback), 1-3 datacenters x 1-3 racks, 1-8 initial hosts with 1-8 Murmur3 vnode tokens each, keyspace replication (SimpleStrategy rf 1-3 | NetworkTopologyStrategy rf 0-3 per existing dc | none), then a history of 5-30 operations (pick sequences with/without routing key, rotation bursts, host down/up, node-up event, add host, remove host, keyspace change), optionally followed by a scheduled phase (1-3 picking tasks, one NextHost call per step, against one mutating task); distinct = distinct canonical-log fingerprint; non-trivial = at least one pick sequence was iterated to exhaustion and checked while the policy knew >= 2 hosts (ops_done counts exactly those) and at least one state-changing operation was applied (counted as history.* faults)",
+		Rule: "one run = one tape-chosen case: policy kind (round-robin | dc-aware | rack-aware | token-aware over one of these x ShuffleReplicas x NonLocalReplicasFallback), 1-3 datacenters x 1-3 racks, 1-8 initial hosts with 1-8 Murmur3 vnode tokens each, keyspace replication (SimpleStrategy rf 1-3 | NetworkTopologyStrategy rf 0-3 per existing dc | none), (token-aware: optionally one token per host instead of vnodes; NetworkTopologyStrategy rf up to 5, i.e. above the number of racks), then a history of 5-30 operations (pick sequences with/without routing key, rotation bursts, host down/up, node-up event, add host, remove host, keyspace change, host replaced by a new one in the same rack with the same or new tokens, keyspace altered and altered back); token-aware: after tape-chosen changes of the host set or the schema and at the end of the history a fresh policy fed the current host set must offer the same replica prefix and the same remaining hosts for keys on both sides of every token range boundary; then optionally 2-4 parallel rounds (1-3 goroutines walking routed picks while one goroutine applies 3-16 state changes, really concurrent when GOMAXPROCS > 1, interleaved per operation otherwise; safety only, then a checked pick and a history check), optionally followed by a scheduled phase (1-3 picking tasks, one NextHost call per step, against one mutating task); distinct = distinct canonical-log fingerprint; non-trivial = at least one pick sequence was iterated to exhaustion and checked while the policy knew >= 2 hosts (ops_done counts exactly those) and at least one state-changing operation was applied (counted as history.* faults)",
 	})
 }
 
@@ -59,6 +68,7 @@ type pkHost struct {
 	addr     net.IP
 	dc, rack string
 	tokens   []string
+	cells    []int // tokens as cell numbers 0..4095 (token = (cell-2048)<<52 + cell)
 	info     *gocql.HostInfo
 	known    bool // the policy was told about it (AddHost) and not told to forget it (RemoveHost)
 	up       bool // state as last set on the HostInfo
@@ -139,6 +149,7 @@ type pkCfg struct {
 	dcs                []string
 	racks              map[string][]string
 	sessionKS          string
+	singleToken        bool // every host owns one token (no vnodes)
 }
 
 func (c *pkCfg) tierKind() int {
@@ -274,19 +285,70 @@ func (m *pkModel) genHost(tp *kernel.Tape, allowDown bool) *pkHost {
 	h := &pkHost{idx: idx, id: fmt.Sprintf("h%02d", idx), addr: net.IPv4(10, 0, byte(idx/200), byte(idx%200+1))}
 	h.dc = c.dcs[tp.Next(len(c.dcs))]
 	h.rack = c.racks[h.dc][tp.Next(len(c.racks[h.dc]))]
-	nt := tp.Range(1, 8)
+	m.genTokens(tp, h)
+	h.up = !(allowDown && tp.Chance(1, 6))
+	h.info = gocql.VerifNewHost(h.id, h.addr, 9042, h.dc, h.rack, h.tokens, h.up)
+	return h
+}
+
+func (m *pkModel) genTokens(tp *kernel.Tape, h *pkHost) {
+	nt := 1
+	if !m.cfg.singleToken {
+		nt = tp.Range(1, 8)
+	}
 	for i := 0; i < nt; i++ {
 		v := tp.Next(4096)
 		for m.usedTok[v] {
 			v = (v + 1) % 4096
 		}
 		m.usedTok[v] = true
-		h.tokens = append(h.tokens, fmt.Sprint(int64(v-2048)<<52+int64(v)))
+		h.cells = append(h.cells, v)
+		h.tokens = append(h.tokens, pkTokenOfCell(v))
 	}
-	h.up = !(allowDown && tp.Chance(1, 6))
+}
+
+func pkTokenOfCell(v int) string { return fmt.Sprint(int64(v-2048)<<52 + int64(v)) }
+
+// genHostLike draws the host that replaces old: same datacenter and rack, and either the
+// tokens of old (the replace-node procedure) or tokens of its own.
+func (m *pkModel) genHostLike(tp *kernel.Tape, old *pkHost) *pkHost {
+	idx := len(m.hosts)
+	h := &pkHost{idx: idx, id: fmt.Sprintf("h%02d", idx), addr: net.IPv4(10, 0, byte(idx/200), byte(idx%200+1)), dc: old.dc, rack: old.rack}
+	if tp.Chance(1, 2) {
+		m.genTokens(tp, h)
+	} else {
+		h.cells = append(h.cells, old.cells...)
+		h.tokens = append(h.tokens, old.tokens...)
+	}
+	h.up = !tp.Chance(1, 6)
 	h.info = gocql.VerifNewHost(h.id, h.addr, 9042, h.dc, h.rack, h.tokens, h.up)
 	return h
 }
+
+// pkCellKey returns a 4-byte routing key whose Murmur3 token lies in cell c of the 4096
+// equal cells of the token space, above the one token a host can own in that cell: the
+// key belongs to the range that ends at the first host token in a later cell.
+func pkCellKey(c int) []byte {
+	pkCellOnce.Do(func() {
+		for i, filled := uint32(0), 0; filled < 4096; i++ {
+			key := []byte{byte(i >> 24), byte(i >> 16), byte(i >> 8), byte(i)}
+			t := murmur.Murmur3H1(key)
+			if t&(1<<52-1) < 4096 {
+				continue
+			}
+			if cell := int(t>>52) + 2048; pkCellKeys[cell] == nil {
+				pkCellKeys[cell] = key
+				filled++
+			}
+		}
+	})
+	return pkCellKeys[c]
+}
+
+var (
+	pkCellKeys [4096][]byte
+	pkCellOnce sync.Once
+)
 
 func (m *pkModel) genSpec(tp *kernel.Tape) *pkSpec {
 	dcs := m.existingDCs()
@@ -303,7 +365,7 @@ func (m *pkModel) genSpec(tp *kernel.Tape) *pkSpec {
 			if tp.Chance(1, 5) {
 				continue // not named
 			}
-			s.dcs[dc] = []int{1, 2, 3, 0}[tp.Next(4)]
+			s.dcs[dc] = []int{1, 2, 3, 0, 4, 5}[tp.Next(6)]
 		}
 		s.asString = tp.Chance(1, 2)
 		return s
@@ -357,6 +419,8 @@ const (
 	opKS
 	opBurst
 	opUpMany
+	opReplace // a host leaves and a new one joins in its place
+	opKSFlip  // a keyspace's replication is altered and altered back
 )
 
 type pkKS struct {
@@ -371,6 +435,7 @@ type pkOp struct {
 	newHost *pkHost
 	fixes   []pkKS // keyspace alterations that precede a removal (see genOp)
 	ks      pkKS
+	ksBack  *pkSpec // opKSFlip: the replication the keyspace returns to
 	picks   []pkQuery
 }
 
@@ -386,9 +451,12 @@ func (m *pkModel) genOp(tp *kernel.Tape, noFaults, mutOnly bool) pkOp {
 			downs = append(downs, h)
 		}
 	}
-	ws := []int{6, 3, 3, 1, 2, 1, 1, 1, 0}
+	ws := []int{6, 3, 3, 1, 2, 1, 1, 1, 0, 1, 1}
 	if len(downs) >= 2 && !noFaults {
 		ws[opUpMany] = 2
+	}
+	if len(known) == 0 || noFaults {
+		ws[opReplace] = 0
 	}
 	if len(ups) == 0 {
 		ws[opDown] = 0
@@ -432,38 +500,49 @@ func (m *pkModel) genOp(tp *kernel.Tape, noFaults, mutOnly bool) pkOp {
 	case opRemove:
 		h := known[tp.Next(len(known))]
 		op.host = h.idx
-		// Generator constraint (DESIGN §3 C11): a NetworkTopologyStrategy keyspace names
-		// only datacenters that have nodes. When the last node of a datacenter goes, the
-		// keyspaces naming it are altered first (ALTER KEYSPACE, then decommission).
-		last := true
-		for _, o := range known {
-			if o != h && o.dc == h.dc {
-				last = false
-			}
-		}
-		if last {
-			var names []string
-			for n := range m.specs {
-				names = append(names, n)
-			}
-			sort.Strings(names)
-			for _, n := range names {
-				s := m.specs[n]
-				if s == nil || s.class != "NetworkTopologyStrategy" {
-					continue
-				}
-				if _, named := s.dcs[h.dc]; named {
-					ns := s.clone()
-					delete(ns.dcs, h.dc)
-					op.fixes = append(op.fixes, pkKS{n, ns})
-				}
-			}
-		}
+		op.fixes = m.removalFixes(h)
+	case opReplace:
+		h := known[tp.Next(len(known))]
+		op.host = h.idx
+		op.fixes = m.removalFixes(h)
+		op.newHost = m.genHostLike(tp, h)
 	case opKS:
 		op.ks.name = []string{"ks", "ks2"}[tp.Weighted([]int{2, 1})]
 		op.ks.spec = m.genSpec(tp)
+	case opKSFlip:
+		op.ks.name = []string{"ks", "ks2"}[tp.Weighted([]int{2, 1})]
+		op.ks.spec = m.genSpec(tp)
+		op.ksBack = m.specs[op.ks.name].clone()
 	}
 	return op
+}
+
+// removalFixes: generator constraint (DESIGN §3 C11): a NetworkTopologyStrategy keyspace
+// names only datacenters that have nodes. When the last node of a datacenter goes, the
+// keyspaces naming it are altered first (ALTER KEYSPACE, then decommission).
+func (m *pkModel) removalFixes(h *pkHost) (fixes []pkKS) {
+	for _, o := range m.known() {
+		if o.idx != h.idx && o.dc == h.dc {
+			return nil
+		}
+	}
+	var names []string
+	for n := range m.specs {
+		names = append(names, n)
+	}
+	sort.Strings(names)
+	for _, n := range names {
+		s := m.specs[n]
+		if s == nil || s.class != "NetworkTopologyStrategy" {
+			continue
+		}
+		if _, named := s.dcs[h.dc]; named {
+			ns := s.clone()
+			delete(ns.dcs, h.dc)
+			fixes = append(fixes, pkKS{n, ns})
+		}
+	}
+	return fixes
 }
 
 // applyModel feeds the operation to the model.
@@ -486,8 +565,18 @@ func (m *pkModel) applyModel(op pkOp) {
 			m.specs[f.name] = f.spec
 		}
 		m.hosts[op.host].known = false
+	case opReplace:
+		for _, f := range op.fixes {
+			m.specs[f.name] = f.spec
+		}
+		m.hosts[op.host].known = false
+		h := *op.newHost
+		h.known = true
+		m.hosts = append(m.hosts, &h)
 	case opKS:
 		m.specs[op.ks.name] = op.ks.spec
+	case opKSFlip:
+		m.specs[op.ks.name] = op.ksBack
 	}
 }
 
@@ -503,6 +592,28 @@ type pkRun struct {
 	seq int // record number: keeps the log of the sequential part in program order
 
 	inBurst bool
+
+	// what the history told the policy under test (see historyCheck)
+	partSet     bool            // SetPartitioner was called
+	ksAnnounced map[string]bool // KeyspaceChanged(keyspace) was called at least once
+	ksCurrent   map[string]bool // ... and the set of known hosts has not changed since
+	lastOp      string          // the last state-changing operation, for messages
+	histMode    int             // 0 check at the end only, 1 after some state changes, 2 after every one
+}
+
+// announced notes a KeyspaceChanged call on the policy under test.
+func (r *pkRun) announced(ks string) {
+	r.ksAnnounced[ks] = true
+	r.ksCurrent[ks] = true
+}
+
+// ringChanged notes that the set of known hosts changed: only the session keyspace's
+// replicas are recomputed then (tokenAwareHostPolicy.AddHost/RemoveHost), the others
+// stay as they were until their next KeyspaceChanged.
+func (r *pkRun) ringChanged() {
+	for ks := range r.ksCurrent {
+		delete(r.ksCurrent, ks)
+	}
 }
 
 func (r *pkRun) rec(format string, args ...interface{}) {
@@ -558,6 +669,7 @@ func runPick(e *Env) {
 		cfg.fb = tp.Next(3)
 		cfg.shuffle = tp.Chance(1, 3)
 		cfg.nonLocal = tp.Chance(1, 2)
+		cfg.singleToken = tp.Chance(1, 4)
 	}
 	nDC := tp.Range(1, 3)
 	for i := 0; i < nDC; i++ {
@@ -580,7 +692,7 @@ func runPick(e *Env) {
 		cfg.sessionKS = "" // no default keyspace: replicas are computed on KeyspaceChanged only
 	}
 	m := &pkModel{cfg: cfg, specs: map[string]*pkSpec{}, usedTok: map[int]bool{}}
-	r := &pkRun{e: e, k: k, m: m, cfg: cfg}
+	r := &pkRun{e: e, k: k, m: m, cfg: cfg, ksAnnounced: map[string]bool{}, ksCurrent: map[string]bool{}, lastOp: "initial population"}
 
 	switch cfg.kind {
 	case pkTA:
@@ -591,6 +703,9 @@ func runPick(e *Env) {
 	}
 	e.Note("policy", cfg.String())
 	e.Note("dcs", fmt.Sprint(cfg.racks))
+	if cfg.singleToken {
+		e.Note("tokens", "single")
+	}
 	if tp.Chance(1, 5) {
 		// a session that has been picking hosts for a long time: the counter behind the
 		// rotation is about to pass a power of two (2^31 is where a 32-bit int overflows,
@@ -628,6 +743,7 @@ func runPick(e *Env) {
 			m.ready = true
 			if order == 0 {
 				r.pol.SetPartitioner(pkPartitioner)
+				r.partSet = true
 			}
 			if bulk, isBulk := r.pol.(interface{ AddHosts([]*gocql.HostInfo) }); isBulk {
 				bulk.AddHosts(infos)
@@ -644,14 +760,17 @@ func runPick(e *Env) {
 			}
 			if cfg.sessionKS != "" {
 				r.pol.KeyspaceChanged(gocql.KeyspaceUpdateEvent{Keyspace: cfg.sessionKS})
+				r.announced(cfg.sessionKS)
 			}
 		case 1: // policies_test.go: hosts first, then the partitioner, then the schema
 			for _, hi := range infos {
 				r.pol.AddHost(hi)
 			}
 			r.pol.SetPartitioner(pkPartitioner)
+			r.partSet = true
 			m.ready = true
 			r.pol.KeyspaceChanged(gocql.KeyspaceUpdateEvent{Keyspace: "ks"})
+			r.announced("ks")
 		}
 	})
 	if !ok {
@@ -659,6 +778,10 @@ func runPick(e *Env) {
 	}
 
 	// ---- sequential history ----
+	if cfg.kind == pkTA {
+		r.histMode = tp.Weighted([]int{3, 2, 1})
+		e.Note("hist_mode", r.histMode)
+	}
 	nOps := tp.Range(5, 30)
 	e.Note("ops", nOps)
 	for i := 0; i < nOps; i++ {
@@ -667,10 +790,31 @@ func runPick(e *Env) {
 			return
 		}
 		m.applyModel(op)
+		// (host up/down reach the fallback policy only: they are seen by the next check)
+		if ringOrSchema := op.kind == opAdd || op.kind == opRemove || op.kind == opReplace || op.kind == opKS || op.kind == opKSFlip || op.kind == opNodeUp; ringOrSchema && (r.histMode == 2 || r.histMode == 1 && tp.Chance(1, 3)) {
+			if !r.historyCheck(true) {
+				return
+			}
+		}
 	}
 	// every history ends with a checked pick so the last state change is observed
 	if !r.apply(pkOp{kind: opPick, picks: []pkQuery{m.genQuery(tp)}}, "") {
 		return
+	}
+	if !r.historyCheck(false) {
+		return
+	}
+
+	// ---- parallel rounds ----
+	if cfg.kind == pkTA {
+		if rounds := []int{0, 2, 3, 4}[tp.Weighted([]int{5, 1, 1, 1})]; rounds > 0 {
+			k.Probe("parallel-phase")
+			for i := 0; i < rounds; i++ {
+				if !r.parallelRound(i, i == rounds-1) {
+					return
+				}
+			}
+		}
 	}
 
 	// ---- scheduled phase ----
@@ -710,6 +854,7 @@ func (r *pkRun) apply(op pkOp, who string) bool {
 	case opDown:
 		h := m.hosts[op.host]
 		r.rec("%sdown %s", who, h.id)
+		r.lastOp = "down " + h.id
 		ok = r.guard("HostDown", func() { // Session.handleNodeDown
 			h.info.VerifSetState(false)
 			r.pol.HostDown(h.info)
@@ -718,6 +863,7 @@ func (r *pkRun) apply(op pkOp, who string) bool {
 	case opUp:
 		h := m.hosts[op.host]
 		r.rec("%sup %s", who, h.id)
+		r.lastOp = "up " + h.id
 		ok = r.guard("HostUp", func() { // Session.handleNodeConnected
 			h.info.VerifSetState(true)
 			r.pol.HostUp(h.info)
@@ -729,6 +875,7 @@ func (r *pkRun) apply(op pkOp, who string) bool {
 			ids = append(ids, m.hosts[i].id)
 		}
 		r.rec("%sup-at-once %s", who, strings.Join(ids, ","))
+		r.lastOp = "up-at-once " + strings.Join(ids, ",")
 		ok = r.guard("HostUp(concurrent)", func() {
 			// with GOMAXPROCS > 1 (the parallel pass) the calls really coincide
 			var wg sync.WaitGroup
@@ -763,14 +910,17 @@ func (r *pkRun) apply(op pkOp, who string) bool {
 	case opNodeUp:
 		h := m.hosts[op.host]
 		r.rec("%snode-up-event %s", who, h.id)
+		r.lastOp = "node-up-event " + h.id
 		ok = r.guard("AddHost(existing)", func() { r.pol.AddHost(h.info) }) // Session.handleNodeUp -> startPoolFill
 		k.Fault("history.node-up-event")
 	case opAdd:
 		h := op.newHost
 		r.rec("%sadd %s %s/%s up=%v tokens=%s", who, h.id, h.dc, h.rack, h.up, strings.Join(h.tokens, ","))
+		r.lastOp = "add " + h.id
 		ok = r.guard("AddHost", func() { r.pol.AddHost(h.info) })
+		r.ringChanged()
 		k.Fault("history.add-host")
-	case opRemove:
+	case opRemove, opReplace:
 		h := m.hosts[op.host]
 		for _, f := range op.fixes {
 			f := f
@@ -779,15 +929,39 @@ func (r *pkRun) apply(op pkOp, who string) bool {
 			if ok = r.guard("KeyspaceChanged", func() { r.pol.KeyspaceChanged(gocql.KeyspaceUpdateEvent{Keyspace: f.name, Change: "UPDATED"}) }); !ok {
 				return false
 			}
+			r.announced(f.name)
 		}
 		r.rec("%sremove %s", who, h.id)
+		r.lastOp = "remove " + h.id
 		ok = r.guard("RemoveHost", func() { r.pol.RemoveHost(h.info) })
+		r.ringChanged()
 		k.Fault("history.remove-host")
+		if op.kind == opReplace && ok {
+			n := op.newHost
+			r.rec("%sadd %s %s/%s up=%v tokens=%s (in place of %s)", who, n.id, n.dc, n.rack, n.up, strings.Join(n.tokens, ","), h.id)
+			r.lastOp = "remove " + h.id + ", add " + n.id + " in its place"
+			ok = r.guard("AddHost", func() { r.pol.AddHost(n.info) })
+			k.Fault("history.replace-host")
+		}
 	case opKS:
 		r.rec("%skeyspace-changed %s %s", who, op.ks.name, op.ks.spec)
+		r.lastOp = "keyspace-changed " + op.ks.name + " " + op.ks.spec.String()
 		m.specs[op.ks.name] = op.ks.spec
 		ok = r.guard("KeyspaceChanged", func() { r.pol.KeyspaceChanged(gocql.KeyspaceUpdateEvent{Keyspace: op.ks.name, Change: "UPDATED"}) })
+		r.announced(op.ks.name)
 		k.Fault("history.keyspace-changed")
+	case opKSFlip:
+		for i, sp := range []*pkSpec{op.ks.spec, op.ksBack} {
+			sp := sp
+			r.rec("%skeyspace-changed %s %s (%s)", who, op.ks.name, sp, []string{"altered", "altered back"}[i])
+			m.specs[op.ks.name] = sp
+			if ok = r.guard("KeyspaceChanged", func() { r.pol.KeyspaceChanged(gocql.KeyspaceUpdateEvent{Keyspace: op.ks.name, Change: "UPDATED"}) }); !ok {
+				return false
+			}
+		}
+		r.lastOp = "keyspace-changed " + op.ks.name + " " + op.ks.spec.String() + " and back to " + op.ksBack.String()
+		r.announced(op.ks.name)
+		k.Fault("history.keyspace-changed-and-back")
 	case opPick:
 		for _, q := range op.picks {
 			if _, ok = r.pickAndCheck(q); !ok {
@@ -1240,5 +1414,523 @@ func (r *pkRun) concurrent() {
 		return
 	}
 	// after the race: one more checked pick against the model (the mutations are over)
-	r.pickAndCheck(m.genQuery(tp))
+	if _, ok := r.pickAndCheck(m.genQuery(tp)); ok {
+		r.historyCheck(false)
+	}
+}
+
+// ---------------------------------------------------------------------------------
+// history independence
+
+// pkWalk picks once and iterates to exhaustion (at most limit hosts).
+func pkWalk(pol gocql.HostSelectionPolicy, eq gocql.ExecutableQuery, limit int, buf []*gocql.HostInfo) (seq []*gocql.HostInfo, finished, nilInfo bool) {
+	seq = buf[:0]
+	next := pol.Pick(eq)
+	if next == nil {
+		return seq, true, false
+	}
+	for i := 0; i < limit; i++ {
+		sh := next()
+		if sh == nil {
+			return seq, true, false
+		}
+		hi := sh.Info()
+		if hi == nil {
+			return seq, false, true
+		}
+		seq = append(seq, hi)
+	}
+	return seq, false, false
+}
+
+func (m *pkModel) toHosts(his []*gocql.HostInfo) []*pkHost {
+	out := make([]*pkHost, len(his))
+	for i, hi := range his {
+		if hi != nil {
+			out[i] = m.byInfo(hi)
+		}
+	}
+	return out
+}
+
+// pkSameSet compares two short sequences without repeated hosts as sets.
+func pkSameSet(a, b []*gocql.HostInfo) bool {
+	if len(a) != len(b) {
+		return false
+	}
+outer:
+	for _, h := range a {
+		for _, o := range b {
+			if o == h {
+				continue outer
+			}
+		}
+		return false
+	}
+	return true
+}
+
+func pkContains(a []*gocql.HostInfo, h *gocql.HostInfo) bool {
+	for _, o := range a {
+		if o == h {
+			return true
+		}
+	}
+	return false
+}
+
+// historyCheck compares the token-aware policy under test, which learnt the cluster
+// through the whole history of notifications, with a fresh policy of the same kind and
+// options that is told the CURRENT state only, through the calls Session.init makes
+// (SetPartitioner, AddHosts, HostUp for the connected hosts, KeyspaceChanged for the
+// session keyspace). What a policy offers must depend on the cluster state, not on the
+// way the state was reached: for routing keys on both sides of every token range
+// boundary the two policies must offer the same hosts in the replicas-first prefix
+// (nearest-tier up replicas; then, with NonLocalReplicasFallback, the up replicas of the
+// farther tiers) - in the same order unless replicas are shuffled - and the same set of
+// remaining hosts. The length of the prefix is taken from the fresh policy's replica
+// list. By design the driver recomputes the replicas of keyspaces other than the
+// session's on their KeyspaceChanged only: such a keyspace is compared when the policy
+// under test was never told about it (both policies then know the token's owner alone)
+// or was told after the last change of the host set (the fresh policy gets the same
+// notification); otherwise it is left out. A check in the middle of the history (mid)
+// looks at one keyspace only, the session's if there is one.
+func (r *pkRun) historyCheck(mid bool) bool {
+	cfg, k, m := r.cfg, r.k, r.m
+	if cfg.kind != pkTA {
+		return true
+	}
+	known := m.known()
+	fresh := pkTokenAware(pkFallback(cfg, cfg.fb), cfg.shuffle, cfg.nonLocal)
+	gocql.VerifTokenAwareWire(fresh, func() string { return cfg.sessionKS }, m.metaFn)
+
+	// the keyspaces that can be compared
+	var ksList, told []string
+	skipped := 0
+	for _, ks := range []string{"ks", "ks2", "nope"} {
+		switch {
+		case ks == cfg.sessionKS, !r.ksAnnounced[ks]:
+			ksList = append(ksList, ks)
+		case r.ksCurrent[ks]:
+			ksList = append(ksList, ks)
+			told = append(told, ks)
+		default:
+			skipped++
+		}
+	}
+	if !r.ksAnnounced["ks2"] || !r.ksAnnounced["ks"] && cfg.sessionKS != "ks" {
+		// "nope" would repeat what a keyspace the policy never heard of already shows
+		ksList = ksList[:len(ksList)-1]
+	}
+	if mid {
+		ksList = ksList[:1] // "ks" when it can be compared (always when it is the session keyspace)
+		if len(told) > 0 && told[0] != ksList[0] {
+			told = nil
+		} else if len(told) > 1 {
+			told = told[:1]
+		}
+	}
+
+	if !r.guard("start-up notifications on a fresh policy", func() {
+		if r.partSet {
+			fresh.SetPartitioner(pkPartitioner)
+		}
+		infos := make([]*gocql.HostInfo, 0, len(known))
+		for _, h := range known {
+			infos = append(infos, h.info)
+		}
+		if bulk, isBulk := fresh.(interface{ AddHosts([]*gocql.HostInfo) }); isBulk {
+			bulk.AddHosts(infos)
+		} else {
+			for _, hi := range infos {
+				fresh.AddHost(hi)
+			}
+		}
+		for _, h := range known {
+			if h.up {
+				fresh.HostUp(h.info) // the HostInfo is shared and already says "up"
+			}
+		}
+		if cfg.sessionKS != "" {
+			fresh.KeyspaceChanged(gocql.KeyspaceUpdateEvent{Keyspace: cfg.sessionKS})
+		}
+		for _, ks := range told {
+			if ks != cfg.sessionKS {
+				fresh.KeyspaceChanged(gocql.KeyspaceUpdateEvent{Keyspace: ks, Change: "UPDATED"})
+			}
+		}
+	}) {
+		return false
+	}
+
+	// routing keys just below and just above every token of the current ring
+	cellSet := map[int]bool{}
+	for _, h := range known {
+		for _, c := range h.cells {
+			cellSet[c] = true
+			cellSet[(c+4095)%4096] = true
+		}
+	}
+	cells := make([]int, 0, len(cellSet)+1)
+	for c := range cellSet {
+		cells = append(cells, c)
+	}
+	sort.Ints(cells)
+	if len(cells) == 0 {
+		cells = append(cells, 0)
+	}
+
+	kindName := "token-aware/" + pkKindName[cfg.fb]
+	limit := 4*len(m.hosts) + 8
+	var sig, msg string
+	var q pkQuery
+	var cell int
+	var seqA, seqB, rA, rB []*gocql.HostInfo
+	describe := func() string {
+		rA, _, _ = gocql.VerifTokenAwareReplicas(r.pol, q.ks, q.key)
+		return fmt.Sprintf("after %q: query %s (token in cell %d, i.e. between tokens %s and %s): the policy that went through the history offers %s (its replica list %s), a fresh policy told the same %d hosts %s offers %s (its replica list %s); keyspace %s is %s; policy %s",
+			r.lastOp, q, cell, pkTokenOfCell(cell), pkTokenOfCell((cell+1)%4096), pkIDs(m.toHosts(seqA)), pkIDs(m.toHosts(rA)), len(known), pkIDs(known), pkIDs(m.toHosts(seqB)), pkIDs(m.toHosts(rB)), q.ks, m.specs[q.ks], cfg)
+	}
+	bufA := make([]*gocql.HostInfo, 0, limit)
+	bufB := make([]*gocql.HostInfo, 0, limit)
+	if !r.guard("Pick/NextHost (history check)", func() {
+		for _, ks := range ksList {
+			for _, c := range cells {
+				cell = c
+				q = pkQuery{form: 2, ks: ks, key: pkCellKey(c)}
+				eq := pkExec(q)
+				var routedA, routedB, finA, nilA, finB, nilB bool
+				_, _, routedA = gocql.VerifTokenAwareReplicas(r.pol, q.ks, q.key)
+				rB, _, routedB = gocql.VerifTokenAwareReplicas(fresh, q.ks, q.key)
+				seqA, finA, nilA = pkWalk(r.pol, eq, limit, bufA)
+				seqB, finB, nilB = pkWalk(fresh, eq, limit, bufB)
+				switch {
+				case nilA || nilB:
+					sig, msg = "C11/nil-host", "NextHost returned a selected host without HostInfo; "+describe()
+					return
+				case !finA || !finB:
+					sig, msg = "C11/iteration-not-finite", fmt.Sprintf("NextHost still returns hosts after %d calls; ", limit)+describe()
+					return
+				case routedA != routedB:
+					sig, msg = "C11/replicas-depend-on-history:"+kindName, fmt.Sprintf("one policy routes by token and the other does not (history %v, fresh %v); ", routedA, routedB)+describe()
+					return
+				}
+				// the prefix lengths, from the fresh policy's replica list
+				n1, n2 := 0, 0
+				if routedB {
+					for i, hi := range rB {
+						h := m.byInfo(hi)
+						if h == nil || !h.up || pkContains(rB[:i], hi) {
+							continue
+						}
+						if cfg.tier(h) == 0 {
+							n1++
+						} else if cfg.nonLocal {
+							n2++
+						}
+					}
+				}
+				if len(seqA) < n1+n2 || len(seqB) < n1+n2 {
+					sig, msg = "C11/replicas-depend-on-history:"+kindName, fmt.Sprintf("the replicas-first prefix has %d+%d hosts but fewer were offered; ", n1, n2)+describe()
+					return
+				}
+				if !pkSameSet(seqA[:n1], seqB[:n1]) {
+					sig, msg = "C11/replicas-depend-on-history:"+kindName, fmt.Sprintf("nearest-tier replicas (first %d hosts) differ: %s vs %s; ", n1, pkIDs(m.toHosts(seqA[:n1])), pkIDs(m.toHosts(seqB[:n1])))+describe()
+					return
+				}
+				if !pkSameSet(seqA[n1:n1+n2], seqB[n1:n1+n2]) {
+					sig, msg = "C11/replicas-depend-on-history:"+kindName, fmt.Sprintf("non-local replicas (hosts %d..%d) differ: %s vs %s; ", n1, n1+n2-1, pkIDs(m.toHosts(seqA[n1:n1+n2])), pkIDs(m.toHosts(seqB[n1:n1+n2])))+describe()
+					return
+				}
+				if !cfg.shuffle {
+					for i := 0; i < n1+n2; i++ {
+						if seqA[i] != seqB[i] {
+							sig, msg = "C11/replica-order-depends-on-history:"+kindName, fmt.Sprintf("without shuffling the first %d hosts must come in the same order, position %d differs; ", n1+n2, i)+describe()
+							return
+						}
+					}
+				}
+				if !pkSameSet(seqA[n1+n2:], seqB[n1+n2:]) {
+					sig, msg = "C11/offered-set-depends-on-history:"+kindName, "the hosts offered after the replicas differ; "+describe()
+					return
+				}
+			}
+		}
+	}) {
+		return false
+	}
+	if sig != "" {
+		k.Violate("C11", sig, "%s", msg)
+		return false
+	}
+
+	r.rec("history check after %q: %d keyspaces x %d keys agree with a fresh policy", r.lastOp, len(ksList), len(cells))
+	k.Probe("history-check")
+	if mid {
+		k.Probe("history-check-mid-history")
+	}
+	if skipped > 0 {
+		k.Probe("history-check-left-out-stale-keyspace")
+	}
+	if len(told) > 0 {
+		k.Probe("history-check-other-keyspace-current")
+	}
+	if cfg.singleToken {
+		k.Probe("history-check-single-tokens")
+	}
+	for _, ks := range ksList {
+		s := m.specs[ks]
+		if s == nil || s.class != "NetworkTopologyStrategy" {
+			continue
+		}
+		for dc, rf := range s.dcs {
+			racks := map[string]bool{}
+			n := 0
+			for _, h := range known {
+				if h.dc == dc {
+					racks[h.rack] = true
+					n++
+				}
+			}
+			if rf > len(racks) && n > len(racks) {
+				k.Probe("history-check-nts-rf-above-racks")
+			} else if rf > 0 && rf < len(racks) {
+				k.Probe("history-check-nts-rf-below-racks")
+			}
+		}
+	}
+	return true
+}
+
+// ---------------------------------------------------------------------------------
+// parallel rounds
+
+type pkParRes struct {
+	q                     pkQuery
+	picks                 int
+	during                int // picks that ended while the mutating goroutine was still at work
+	panicked              bool
+	panicVal              string
+	frames                []string
+	nilHost, dup, endless bool
+	seq                   []string
+}
+
+// parallelRound: 1-3 goroutines walk routed picks to exhaustion while one goroutine
+// applies a sequence of state changes (KeyspaceChanged, AddHost, RemoveHost, HostUp,
+// HostDown) to the same policy. With GOMAXPROCS > 1 (the parallel pass) all of them leave
+// a spin barrier together and really overlap; the pickers then repeat their script so
+// that they last as long as the mutations. With one processor the same work is
+// interleaved on the root goroutine (one pick of every picker after each state change),
+// which keeps that pass deterministic. Safety only, the property's quantifier for
+// interleavings: no panic, no nil host, no host twice within one pick, the iteration
+// ends. (A concurrent map access the runtime detects ends the process; the runner reports
+// that.) After the round the state is checked against the model and a fresh policy.
+func (r *pkRun) parallelRound(round int, last bool) bool {
+	k, m := r.k, r.m
+	tp := k.Tape
+	spin := runtime.GOMAXPROCS(0) > 1
+	nPick := 1 + tp.Next(3)
+	reps := []int{16, 64, 256}[tp.Next(3)]
+	scripts := make([][]pkQuery, nPick)
+	for i := range scripts {
+		n := tp.Range(1, 4)
+		for j := 0; j < n; j++ {
+			q := pkQuery{form: 2, ks: []string{"ks", "ks2", "nope"}[tp.Weighted([]int{5, 2, 1})]}
+			if tp.Chance(1, 2) {
+				q.key = pkCellKey(tp.Next(4096))
+			} else {
+				q.key = []byte{byte(tp.Next(256)), byte(tp.Next(256))}
+			}
+			scripts[i] = append(scripts[i], q)
+		}
+	}
+	shadow := m.clone()
+	nMut := 3 + tp.Next(14)
+	var muts []pkOp
+	for i := 0; i < nMut; i++ {
+		var op pkOp
+		if tp.Chance(1, 2) {
+			op = pkOp{kind: opKS}
+			op.ks.name = []string{"ks", "ks2"}[tp.Weighted([]int{2, 1})]
+			op.ks.spec = shadow.genSpec(tp)
+		} else {
+			op = shadow.genOp(tp, r.e.NoFaults, true)
+		}
+		shadow.applyModel(op)
+		muts = append(muts, op)
+	}
+	for v := range shadow.usedTok {
+		m.usedTok[v] = true
+	}
+	limit := 4*len(shadow.hosts) + 8
+	r.rec("parallel round %d: %d pickers, %d mutations", round, nPick, nMut)
+	k.Probe("parallel-round")
+
+	res := make([]pkParRes, nPick)
+	// one pick walked to exhaustion; false = stop this picker
+	walk := func(pr *pkParRes, q pkQuery) bool {
+		pr.q = q
+		pr.seq = pr.seq[:0]
+		next := r.pol.Pick(pkExec(q))
+		pr.picks++
+		if next == nil {
+			return true
+		}
+		var seen [8]*gocql.HostInfo
+		seenN := seen[:0]
+		for n := 0; ; n++ {
+			sh := next()
+			if sh == nil {
+				return true
+			}
+			hi := sh.Info()
+			if hi == nil {
+				pr.nilHost = true
+				return false
+			}
+			pr.seq = append(pr.seq, hi.HostID())
+			for _, o := range seenN {
+				if o == hi {
+					pr.dup = true
+					return false
+				}
+			}
+			seenN = append(seenN, hi)
+			if n > limit {
+				pr.endless = true
+				return false
+			}
+		}
+	}
+	guarded := func(pr *pkParRes, fn func()) {
+		defer func() {
+			if p := recover(); p != nil {
+				pr.panicked = true
+				pr.panicVal = fmt.Sprint(p)
+				pr.frames = pkDriverFrames()
+			}
+		}()
+		fn()
+	}
+	mutate := func() {
+		for _, op := range muts {
+			if !r.apply(op, "par ") {
+				return
+			}
+			m.applyModel(op)
+		}
+	}
+
+	if !spin {
+		pos := make([]int, nPick)
+		stopped := make([]bool, nPick)
+		for _, op := range muts {
+			if !r.apply(op, "par ") {
+				return false
+			}
+			m.applyModel(op)
+			for pi := range scripts {
+				if stopped[pi] {
+					continue
+				}
+				pr := &res[pi]
+				q := scripts[pi][pos[pi]%len(scripts[pi])]
+				pos[pi]++
+				guarded(pr, func() { stopped[pi] = !walk(pr, q) })
+				if pr.panicked {
+					stopped[pi] = true
+				}
+			}
+		}
+	} else {
+		var wg sync.WaitGroup
+		var ready, gate int32
+		barrier := func() {
+			atomic.AddInt32(&ready, 1)
+			for n := 0; atomic.LoadInt32(&gate) == 0; n++ {
+				if n%1024 == 1023 {
+					runtime.Gosched()
+				}
+			}
+		}
+		var mutDone int32
+		for pi := range scripts {
+			pi := pi
+			wg.Add(1)
+			go func() {
+				defer wg.Done()
+				pr := &res[pi]
+				barrier()
+				guarded(pr, func() {
+					// at least reps passes, and on until the mutations are over (bounded)
+					for rep := 0; rep < reps || (atomic.LoadInt32(&mutDone) == 0 && rep < 64*reps); rep++ {
+						for _, q := range scripts[pi] {
+							if !walk(pr, q) {
+								return
+							}
+							if atomic.LoadInt32(&mutDone) == 0 {
+								pr.during++
+							}
+						}
+					}
+				})
+			}()
+		}
+		wg.Add(1)
+		go func() {
+			defer wg.Done()
+			defer atomic.StoreInt32(&mutDone, 1)
+			barrier()
+			mutate()
+		}()
+		for n := 0; atomic.LoadInt32(&ready) < int32(nPick+1) && n < 1<<22; n++ {
+			runtime.Gosched()
+		}
+		atomic.StoreInt32(&gate, 1)
+		wg.Wait()
+		k.Probe("parallel-round-really-parallel")
+	}
+
+	for pi := range res {
+		pr := &res[pi]
+		where := fmt.Sprintf("parallel round %d, picker %d, pick %d, query %s, hosts offered so far [%s], while another goroutine applied %d state changes (last one begun: %q); policy %s", round, pi, pr.picks, pr.q, strings.Join(pr.seq, " "), nMut, r.lastOp, r.cfg)
+		switch {
+		case pr.panicked:
+			top := "?"
+			if len(pr.frames) > 0 {
+				top = pr.frames[0]
+			}
+			if len(pr.frames) > 6 {
+				pr.frames = pr.frames[:6]
+			}
+			k.Violate("C11", "C11/panic:"+top, "Pick/NextHost panicked: %s; driver frames: %s; %s", pr.panicVal, strings.Join(pr.frames, " <- "), where)
+		case pr.nilHost:
+			k.Violate("C11", "C11/nil-host", "concurrent: NextHost returned a selected host without HostInfo; %s", where)
+		case pr.dup:
+			k.Violate("C11", "C11/host-offered-twice", "concurrent: the last host was already offered by this iterator; %s", where)
+		case pr.endless:
+			k.Violate("C11", "C11/iteration-not-finite", "concurrent: NextHost still returns hosts after %d calls (%d hosts exist); %s", limit, len(shadow.hosts), where)
+		}
+	}
+	if k.Violation() != nil {
+		return false
+	}
+	k.Probe("parallel-round-completed")
+	during := 0
+	for pi := range res {
+		during += res[pi].during
+	}
+	if during >= 16 {
+		k.Probe("parallel-round-16-picks-or-more-overlapped-mutations")
+	}
+	if during >= 256 {
+		k.Probe("parallel-round-256-picks-or-more-overlapped-mutations")
+	}
+	// the mutations are over: the policy must be where a sequential history would have left it
+	q := pkQuery{form: 2, ks: "ks", key: pkCellKey(tp.Next(4096))}
+	if _, ok := r.pickAndCheck(q); !ok {
+		return false
+	}
+	return !last || r.historyCheck(false)
 }
